@@ -69,6 +69,7 @@ class World:
             e.stubs["calc_error"] = (lambda ei=ei: (_ for _ in ()).throw(Unsupported("calc_error of an uninterpreted edge")))
             self.edges.append(e)
         self.graph = it.construct("Graph", [self.edges, self.verts])
+        it.nonneg_prefixes.add("chi2[")       # an edge's chi^2 is a non-negative number (zero for a perfectly consistent edge)
         it.maybe_nonfinite.add("dx")          # a singular system makes the solver return nan / inf
         it.overrides["spsolve"] = self.spsolve
         it.overrides["time"] = self.time
@@ -362,7 +363,7 @@ def split_obligation(vtypes, edges, fixed, ffp, n, k1):
 
 
 def optimize_obligation(vtypes, edges, fixed, ffp, max_iter, verbose, second_call=False, refix=None, shared=None, twin=None,
-                        allow_size_thresholds=False, int_flags=False):
+                        allow_size_thresholds=False, int_flags=False, max_paths=512):
     def fn(it):
         check_result.solves_seen = 0
         fails = Fails()
@@ -398,7 +399,7 @@ def optimize_obligation(vtypes, edges, fixed, ffp, max_iter, verbose, second_cal
         if fails:
             raise ObFail(" || ".join("[%s] %s" % km for km in fails))
         return st
-    return lambda pkg: run_obligation(pkg, fn, max_paths=512, allow_size_thresholds=allow_size_thresholds)
+    return lambda pkg: run_obligation(pkg, fn, max_paths=max_paths, allow_size_thresholds=allow_size_thresholds)
 
 
 def directed_tasks(prefix, rule, where, size_consts, counter_consts):
@@ -421,8 +422,10 @@ def directed_tasks(prefix, rule, where, size_consts, counter_consts):
                 out.append(("%s/optimize-semantics/directed/%d-vertices(size constant %d)/iter%d" % (prefix, n_, c, mi), rule,
                             optimize_obligation(vt, ed, (), True, mi, False, allow_size_thresholds=True), where))
     for c in counter_consts:
+        # long runs: the exploration is depth-first (the k-th path reaches iteration k), so a bounded number of paths reaches the
+        # iterations beyond the constant; a deviation found on any explored path counts, no deviation within the budget = undecided
         out.append(("%s/optimize-semantics/directed/iter%d(iteration constant %d)" % (prefix, c + 2, c), rule,
-                    optimize_obligation(V3, E3, (), True, c + 2, False, allow_size_thresholds=True), where))
+                    optimize_obligation(V3, E3, (), True, c + 2, False, allow_size_thresholds=True, max_paths=511 if c <= 3 else 40), where))
     return out
 
 
